@@ -397,6 +397,119 @@ pub fn run(ctx: &mut Ctx) -> Report {
 		}
 		s.rep.exhaustive.push("repeat of certificate and request generation with keys loaded through each of the six entry points x every Ed25519 / RSA algorithm of the build".into());
 	}
+	// (h) interleaving with *other keys*: the complete output for a key of a deterministic scheme is
+	// the same whatever was signed before it on the same thread — keys of the same scheme and
+	// other sizes in particular (RSA 2048 / 3072 / 4096, two Ed25519 keys)
+	#[cfg(not(feature = "nocrypto"))]
+	{
+		let mut pool: Vec<(String, Arc<KeyPair>)> = Vec::new();
+		for bits in [2048u32, 3072, 4096] {
+			let der = if bits == 2048 { s.ctx.rsa_fixture.clone() } else { std::fs::read(format!("/verif/harness/fixtures/rsa{}.pk8", bits)).unwrap_or_else(|_| crate::keys::rsa_pkcs8(bits)) };
+			if let Ok(k) = KeyPair::from_pkcs8_der_and_sign_algo(&rustls_pki_types::PrivatePkcs8KeyDer::from(der), &PKCS_RSA_SHA256) {
+				pool.push((format!("rsa{}", bits), Arc::new(k)));
+			}
+		}
+		pool.push(("ed25519-a".into(), s.ctx.key("ed25519")));
+		if let Ok(k) = KeyPair::generate_for(&PKCS_ED25519) {
+			pool.push(("ed25519-b".into(), Arc::new(k)));
+		}
+		let mut p = PCert::default_like();
+		p.serial = Some(vec![7]);
+		p.ca = Ca::Ca(None);
+		let artefacts = |k: &KeyPair, p: &PCert| -> Option<(Vec<u8>, Vec<u8>, Vec<u8>)> {
+			let cert = p.real()?.self_signed(k).ok()?;
+			let mut q = p.clone();
+			q.serial = None;
+			q.ca = Ca::No;
+			let csr = q.real()?.serialize_request(k).ok()?;
+			let crl = CertificateRevocationListParams {
+				this_update: Dt::ymd(2024, 1, 1).real()?,
+				next_update: Dt::ymd(2025, 1, 1).real()?,
+				crl_number: SerialNumber::from(3u64),
+				issuing_distribution_point: None,
+				revoked_certs: vec![],
+				key_identifier_method: KeyIdMethod::PreSpecified(vec![1, 2, 3]),
+			}
+			.signed_by(&cert, k)
+			.ok()?;
+			Some((cert.der().to_vec(), csr.der().to_vec(), crl.der().to_vec()))
+		};
+		// each key alone, on a thread of its own
+		let mut alone: Vec<Option<(Vec<u8>, Vec<u8>, Vec<u8>)>> = Vec::new();
+		for (_, k) in &pool {
+			let (k, p) = (k.clone(), p.clone());
+			alone.push(std::thread::spawn(move || artefacts(&k, &p)).join().ok().flatten());
+		}
+		// every ordered pair on one fresh thread: first, then second
+		for i in 0..pool.len() {
+			for j in 0..pool.len() {
+				if i == j {
+					continue;
+				}
+				let (ki, kj, pp) = (pool[i].1.clone(), pool[j].1.clone(), p.clone());
+				let got = std::thread::spawn(move || {
+					let _ = artefacts(&ki, &pp);
+					artefacts(&kj, &pp)
+				})
+				.join()
+				.ok()
+				.flatten();
+				s.rep.case(&format!("other-key-before {} then {}", pool[i].0, pool[j].0), true);
+				s.rep.count("other_key_interleavings");
+				if got != alone[j] || got.is_none() {
+					s.rep.violate("C15:interleaved-with-other-key", "the complete output for a key of a deterministic signature scheme depends on which other key signed before it on the same thread", format!("first {} then {}: the second key's certificate / request / CRL differ from what it produces on a thread of its own\nalone: {:?}\nafter: {:?}", pool[i].0, pool[j].0, alone[j].as_ref().map(|x| hex(&x.0)), got.as_ref().map(|x| hex(&x.0))));
+				}
+			}
+		}
+		s.rep.exhaustive.push(format!("every ordered pair of {} keys of deterministic schemes (RSA 2048/3072/4096, two Ed25519) on one thread: the second key's certificate, request and CRL equal what it produces alone", pool.len()));
+	}
+	// (i) issuance from a parsed request: the same request parsed twice and issued twice by the
+	// same issuer gives the same to-be-signed bytes (whole DER under an Ed25519 issuer), and the
+	// returned certificate reports the parameters the request was parsed into
+	#[cfg(not(feature = "nocrypto"))]
+	{
+		let iss_key = s.ctx.key("ed25519");
+		let mut ip = PCert::default_like();
+		ip.ca = Ca::Ca(None);
+		ip.serial = Some(vec![2]);
+		let issuer = ip.real().and_then(|r| r.self_signed(&*iss_key).ok());
+		let n = if s.ctx.thorough { 60 } else { 12 };
+		for round in 0..n {
+			let mut p = case_params(&mut s.rng);
+			p.serial = None;
+			p.ca = Ca::No;
+			p.nc = None;
+			p.crldp = vec![];
+			p.aki = false;
+			p.custom = vec![];
+			p.eku.retain(|e| !matches!(e, ExtendedKeyUsagePurpose::Other(_)));
+			let alg = ["ed25519", "ecdsaP256", "rsaSha256"][round % 3];
+			let subj = s.ctx.key(alg);
+			let (Some(rp), Some(issuer)) = (p.real(), issuer.as_ref()) else { continue };
+			let Ok(csr) = rp.serialize_request(&*subj) else { continue };
+			let parse = || CertificateSigningRequestParams::from_der(csr.der());
+			let (Ok(a), Ok(b)) = (parse(), parse()) else { continue };
+			let want_params = PCert::of_real(&a.params).sexp();
+			let (ca, cb) = (a.signed_by(issuer, &*iss_key), b.signed_by(issuer, &*iss_key));
+			s.rep.case(&format!("issue-from-request twice {} {}", alg, p.sexp()), true);
+			s.rep.count("request_issuance_repeats");
+			match (ca, cb) {
+				(Ok(ca), Ok(cb)) => {
+					if ca.der() != cb.der() {
+						s.rep.violate("C15:repeat:issued-from-request", "issuing twice from the same parsed request gives different certificates (Ed25519 issuer: the whole output is a function of the inputs)", format!("request: {}\nfirst:  {}\nsecond: {}", hex(csr.der()), hex(ca.der()), hex(cb.der())));
+					}
+					if PCert::of_real(ca.params()).sexp() != want_params {
+						s.rep.violate("C15:params-preserved:issued-from-request", "the certificate issued from a parsed request reports other parameters than the request was parsed into", format!("request: {}\nparsed: {}\nreported: {}", hex(csr.der()), want_params, PCert::of_real(ca.params()).sexp()));
+					}
+				},
+				(a, b) => {
+					if a.is_ok() != b.is_ok() {
+						s.rep.violate("C15:repeat:issued-from-request", "issuing twice from the same parsed request succeeds once and fails once", hex(csr.der()));
+					}
+				},
+			}
+		}
+	}
 	// (c) threads sharing one key pair and one issuer certificate
 	{
 		let key = s.ctx.key("ed25519");
